@@ -48,6 +48,24 @@ def gen_inputs(tier, rnd):
             # a second data set sharing keys is read with the same CID after this reader was constructed
             case["decoy"] = [[rnd.choice("abc") for _ in range(nkeys)] for _ in range(rnd.randint(1, 4))]
         yield case
+    # several IsUnique checks of equal arity over different fields whose values overlap (each check must keep its own
+    # bookkeeping), and several DistinctCount checks
+    for _ in range(250 if tier == "quick" else 3000):
+        nkeys = rnd.randint(2, 3)
+        fields = [{"name": "k%d" % i, "empty": False, "type": "Choice", "choices": ["a", "b", "c"], "length": None} for i in range(nkeys)]
+        checks = []
+        arity = rnd.randint(1, 2)
+        for _c in range(rnd.randint(2, 3)):
+            if rnd.random() < 0.75:
+                checks.append({"kind": "unique", "cols": rnd.sample(range(nkeys), arity)})
+            else:
+                checks.append({"kind": "distinct", "col": rnd.randrange(nkeys), "op": rnd.choice(ops), "n": rnd.randint(0, 4)})
+        table = [[rnd.choice("aabbcz") for _ in range(nkeys)] for _ in range(rnd.randint(2, 6 if tier == "quick" else 9))]
+        yield {"spec": {"format": "delimited", "header": 0, "fields": fields, "checks": checks}, "table": table, "mode": rnd.choice(["yield", "yield", "continue", "raise"])}
+    for table in ([["a", "b"], ["b", "c"]], [["a", "b"], ["b", "a"]], [["a", "b"], ["c", "a"], ["b", "c"]], [["a", "a"], ["b", "b"]]):
+        fields = [{"name": "k%d" % i, "empty": False, "type": "Choice", "choices": ["a", "b", "c"], "length": None} for i in range(2)]
+        for cols in ([[0], [1]], [[1], [0]], [[0, 1], [1, 0]]):
+            yield {"spec": {"format": "delimited", "header": 0, "fields": fields, "checks": [{"kind": "unique", "cols": c} for c in cols]}, "table": table, "mode": "yield"}
 
 
 def direct_oracle(inp, obs):
@@ -56,8 +74,8 @@ def direct_oracle(inp, obs):
         return None
     spec, table = inp["spec"], inp["table"]
     n = len(spec["fields"])
-    seen = {}            # key -> row number of the first row that passed the unique check
-    values = set()
+    seen = [dict() for _ in spec["checks"]]            # per check: key -> row number of the first row that passed it
+    values = [set() for _ in spec["checks"]]
     expected = []
     for rno, row in enumerate(table):
         ok_fields = len(row) == n and all(c in ("a", "b", "c") for c in row)
@@ -65,15 +83,15 @@ def direct_oracle(inp, obs):
         if not ok_fields:
             verdict = "rejected-before-checks"
         else:
-            for c in spec["checks"]:
+            for ci, c in enumerate(spec["checks"]):
                 if c["kind"] == "unique":
                     key = tuple(row[i] for i in c["cols"])
-                    if key in seen:
-                        verdict = ("dup", seen[key])
+                    if key in seen[ci]:
+                        verdict = ("dup", seen[ci][key])
                         break
-                    seen[key] = rno
+                    seen[ci][key] = rno
                 else:
-                    values.add(row[c["col"]])
+                    values[ci].add(row[c["col"]])
         expected.append(verdict)
     got = obs["outs"]
     if len(got) != len(expected):
@@ -89,12 +107,15 @@ def direct_oracle(inp, obs):
             if o["err"]["line"] != rno or o["err"]["see"] is None or o["err"]["see"][0] != e[1]:
                 return "duplicate in row %d: error located at row %d, refers back to %r; expected row %d referring to row %d" % (
                     rno + 1, o["err"]["line"] + 1, o["err"]["see"], rno + 1, e[1] + 1)
-    d = [c for c in spec["checks"] if c["kind"] == "distinct"]
+    d = [(ci, c) for ci, c in enumerate(spec["checks"]) if c["kind"] == "distinct"]
     if d:
-        c = d[0]
-        count = len(values)
-        holds = {"<": count < c["n"], "<=": count <= c["n"], "==": count == c["n"], "!=": count != c["n"], ">=": count >= c["n"], ">": count > c["n"]}[c["op"]]
+        all_hold = True
+        for ci, c in d:
+            count = len(values[ci])
+            holds = {"<": count < c["n"], "<=": count <= c["n"], "==": count == c["n"], "!=": count != c["n"], ">=": count >= c["n"], ">": count > c["n"]}[c["op"]]
+            all_hold = all_hold and holds
         failed = obs["raised"] is not None and obs["raised"]["family"] == "FCheck"
-        if failed != (not holds):
-            return "distinct count is %d, rule 'count %s %d': finishing %s but must %s" % (count, c["op"], c["n"], "failed" if failed else "passed", "pass" if holds else "fail")
+        if failed != (not all_hold):
+            return "distinct counts are %r for the rules %r: finishing %s but must %s" % (
+                [len(values[ci]) for ci, _ in d], ["count %s %d" % (c["op"], c["n"]) for _, c in d], "failed" if failed else "passed", "pass" if all_hold else "fail")
     return None
